@@ -644,7 +644,16 @@ func (t *tr) call(ins ssa.Instruction, cc *ssa.CallCommon, R string, heaps map[s
 	}
 	if t.own != nil && t.parent == nil {
 		for _, ac := range t.own.Asserts2 {
-			if ac.N != n || !(name == ac.Callee || strings.HasSuffix(name, "."+ac.Callee) || strings.HasSuffix(name, ")."+ac.Callee)) {
+			match := ac.N == n && (name == ac.Callee || strings.HasSuffix(name, "."+ac.Callee) || strings.HasSuffix(name, ")."+ac.Callee))
+			if !match {
+				// the anchor call may sit inside the helper this call inlines
+				for an, ord := range t.callAlias[ins] {
+					if ord == ac.N && (an == ac.Callee || strings.HasSuffix(an, "."+ac.Callee) || strings.HasSuffix(an, ")."+ac.Callee)) {
+						match = true
+					}
+				}
+			}
+			if !match {
 				continue
 			}
 			idx := 0
